@@ -73,12 +73,18 @@ def run(tier):
         for normalization in ("none", "rust"):
             schema, doc = build(vs)
             mods.append({"values": vs, "norm": normalization, "schema": schema, "doc": doc})
-    resps = generate([gen_request(m["schema"].sdl(), gql.render_doc(m["doc"]),
-                                  {"mode": "cli", "response_derives": "Serialize,Debug", "variables_derives": "Deserialize",
-                                   "normalization": m["norm"]}) for m in mods])
+            if len(vs) != 2:
+                # the string behaviour of an enum does not depend on the other options: more derives (enums get the union of
+                # both lists), skip-none, other-variant, the schema as introspection JSON
+                mods.append({"values": vs, "norm": normalization, "schema": schema, "doc": doc, "json": True,
+                             "opts": {"response_derives": "Serialize,Debug,Clone,PartialEq,Eq,Hash", "variables_derives": "Deserialize,Debug,Clone,PartialEq",
+                                      "skip_none": True, "other_variant": True}})
+    resps = generate([gen_request(m["schema"].introspection() if m.get("json") else m["schema"].sdl(), gql.render_doc(m["doc"]),
+                                  dict({"mode": "cli", "response_derives": "Serialize,Debug", "variables_derives": "Deserialize",
+                                        "normalization": m["norm"]}, **m.get("opts", {})), ext="json" if m.get("json") else "graphql") for m in mods])
     farm = Farm("c10")
     for m, r in zip(mods, resps):
-        m["label"] = {"enum_values": m["values"], "normalization": m["norm"]}
+        m["label"] = {"enum_values": m["values"], "normalization": m["norm"], "options": m.get("opts", "default"), "schema_format": "json" if m.get("json") else "sdl"}
         sigs = set()
         idents = [(camel(v) if m["norm"] == "rust" else v) for v in m["values"]]
         if any(i == "Other" for i in idents):
@@ -124,7 +130,7 @@ def run(tier):
     debug_of = {}
     for (m, pos, s), r in zip(meta, fres):
         label = dict(m["label"], position=pos, string=s if not isinstance(s, str) or len(s) < 60 else s[:20] + "...(%d)" % len(s))
-        distinct.add((tuple(m["values"]), m["norm"], pos, json.dumps(s)))
+        distinct.add((tuple(m["values"]), m["norm"], bool(m.get("json")), pos, json.dumps(s)))
         ok = bool(r and r.get("ok"))
         outcomes[(pos, ok)] = outcomes.get((pos, ok), 0) + 1
         if pos == "non_string":
